@@ -44,6 +44,29 @@ CHECKS = {
                 technique="TLA+ action properties checked with TLC + replay"),
 }
 
+QNOTE = ("Trusted base: TLC evaluating Query.tla; the renderer (filter record -> ZitiQL text) and dataset loader of the harness; the value "
+         "table (19-character alphabet, halves, hour ranks). Where the documents are silent the engine's reading is adopted and named in Query.tla.")
+CHECKS.update({
+    "C01": dict(cat="exploration", ref="DESIGN.md 5/C01", note=QNOTE,
+                text="Spec-derived bounded-exhaustive: the filter semantics is an explicit TLA+ definition (Query.tla) evaluated by TLC over enumerated (dataset, filter) "
+                     "cases; each case is run through every evaluation path of the engine (both scanners, explicit cursor, cursor-style iteration) and must equal the "
+                     "specification's answer -- 'independent of the shortcut taken' is a checked statement. A pure function has no interesting transition system, so "
+                     "this is exploration level, exhaustive within the enumerated atoms.",
+                technique="TLA+ denotational specification evaluated by TLC as case generator/oracle; cases replayed through all query paths of the real engine"),
+    "C02": dict(cat="exploration", ref="DESIGN.md 5/C02", note=QNOTE,
+                text="Sorted/Page/count of Query.tla evaluated by TLC over all combinations of sort specifications (0-5 fields, both directions, ties, nulls), skip and "
+                     "limit values incl. absent/negative/none/beyond the end; every case through both scan strategies and cursor-style iteration.",
+                technique="TLA+ specification of sort/page/count evaluated by TLC; cases replayed through all query paths"),
+    "C19": dict(cat="exploration", ref="DESIGN.md 5/C19", note=QNOTE,
+                text="The same TLC-generated cases (non-set symbols) executed through objectz.ObjectStore and compared with the specification the bolt-backed store is "
+                     "held to by C01/C02.",
+                technique="TLA+ specification as common oracle; cases replayed through objectz"),
+    "C20": dict(cat="exploration", ref="DESIGN.md 5/C20", note=QNOTE,
+                text="Query!QSyms (TLC) gives the symbols each generated query references; all public/non-public assignments are wired into fresh stores and "
+                     "ValidateSymbolsArePublic must accept iff all are public, naming a non-public symbol otherwise.",
+                technique="TLA+ definition of referenced symbols evaluated by TLC; exhaustive publicity assignments replayed on the real validator"),
+})
+
 NOT_YET = {
     "C01": "check under construction in this session (Query.tla); not claimed until it runs clean on the unchanged tree",
     "C02": "check under construction (Query.tla / ScanAlgo.tla)",
